@@ -307,6 +307,12 @@ def apply_op(s, c):
         return (s.copy(), None) if k in (1, 2, 4) else (s, "bad")
     if op == "it":
         return s.copy(), None
+    if op == "dtw":
+        if s.fmt not in ("csr", "dense", "banded"):
+            return s, "bad"
+        t = s.copy()
+        t.M = [[round_dt(x) for x in row] for row in s.M]      # narrow once; widening and narrowing again changes nothing
+        return t, None
     if op == "dt":
         if s.fmt not in ("csr", "dense", "banded"):
             return s, "bad"
@@ -454,7 +460,7 @@ def gen_op(rng, s):
     f = s.fmt
     if f == "csr":
         ops = ["tocsr", "tobanded", "tobanded", "tocscr", "tocscr", "clone", "clone", "layout", "graph", "tr", "tr", "tri",
-               "perm", "perm", "perm", "it", "dt", "layoutz", "layouta", "graphz"]
+               "perm", "perm", "perm", "it", "dt", "dtw", "layoutz", "layouta", "graphz"]
     elif f == "banded":
         ops = ["tocsr", "tocsr", "tocsr", "tobanded", "clone", "layout", "it", "dt", "layoutz", "layouta"]
     elif f == "cscr":
@@ -514,7 +520,7 @@ def gen_case(rng, big):
     while len(ops) < n and tries < 60:
         tries += 1
         o = gen_op(rng, s)
-        if o == "dt" and not has_dt:
+        if o in ("dt", "dtw") and not has_dt:
             continue
         t, tag = apply_op(s, Tk(o))
         if tag is None:
@@ -541,8 +547,25 @@ def gen_vec_case(rng):
     return "%d vec %s %d %s" % (rng.choice([32, 64]), flq(x), len(ops), " ".join(ops))
 
 
+def gen_vecx_case(rng):
+    kind = rng.choice(["dv", "dvb", "sv"])
+    if kind == "sv":
+        n = rng.choice([1, 3, 6, 9])
+        ix = sorted(rng.sample(range(n), rng.randint(0, min(n, 4))))
+        init = "sv %d %s %s" % (n, fl(ix), flq([rand_val(rng, False) for _ in ix]))
+    else:
+        n = rng.choice([0, 1, 2, 5]) * (2 if kind == "dvb" else 1)
+        init = "%s %s" % (kind, flq([rand_val(rng, False) for _ in range(n)]))
+    ops = []
+    for _ in range(rng.randrange(1, 5)):
+        d, i = rng.choice([(0, 1), (0, 1), (1, 0), (1, 1)])
+        ops.append("xclone %d %d %d" % (d, i, rng.randrange(5)) if rng.random() < 0.7 else "xconv %d %d" % (d, i))
+    return "%d vecx %s %d %s" % (rng.choice([32, 64]), init, len(ops), " ".join(ops))
+
+
 def gen_cases(rng, count, big=False):
-    return [(gen_vec_case(rng) if rng.random() < 0.02 else gen_case(rng, big)).strip() for _ in range(count)]
+    return [(gen_vec_case(rng) if rng.random() < 0.02 else gen_vecx_case(rng) if rng.random() < 0.03 else
+             gen_case(rng, big)).strip() for _ in range(count)]
 
 
 def perm_enumeration():
@@ -570,6 +593,12 @@ def perm_enumeration():
         for d, i in ((0, 1), (1, 0), (1, 1)):
             for m in range(5):
                 out.append("%d %s 2 xclone %d %d %d clone %d" % (32 if (k + m) % 2 else 64, ini, d, i, m, m))
+    # the same Container code path on vectors: 3 vector kinds x 3 type combinations x (5 clone modes + convert)
+    for k, ini in enumerate(["dv 3 1/3 2/1 3/1", "dvb 4 1/3 2/1 3/1 4/1", "sv 6 2 1 4 2 5/1 1/3"]):
+        for d, i in ((0, 1), (1, 0), (1, 1)):
+            for m in range(5):
+                out.append("%d vecx %s 1 xclone %d %d %d" % (32 if (k + m) % 2 else 64, ini, d, i, m))
+            out.append("%d vecx %s 2 xconv %d %d xclone %d %d 2" % (64, ini, d, i, d, i))
     return out
 
 
@@ -640,6 +669,10 @@ CORPUS += [
     "32 csr 2 3 3 0 2 3 3 0 2 1 3 1/3 2/1 3/1 3 xclone 0 1 2 xclone 0 1 0 xclone 1 1 3",
     "64 dense 2 2 4 1/1 2/1 3/1 4/1 3 xclone 0 1 2 xclone 1 0 4 xclone 0 1 1",
     "32 csr 2 3 0 0 0 2 xclone 0 1 2 xclone 1 0 0",
+    "32 csr 2 3 3 0 2 3 3 0 2 1 3 1/3 -2/7 123456789/1000 2 dtw dt",          # narrow, widen, narrow = narrow
+    "32 dense 2 2 4 1/3 16777217/1 -33554435/2 5/1 1 dtw",
+    "32 vecx dv 0 1 xclone 0 1 2",
+    "32 vecx sv 6 0 0 2 xclone 0 1 2 xconv 1 1",
     "32 dense 2 2 4 1/1 2/1 3/1 4/1 1 convs",
 ]
 
@@ -649,7 +682,7 @@ CORPUS += [
 # ---------------------------------------------------------------------------------------------
 
 def is_abnormal(out):
-    return out.split(":")[0] in ("ABORT", "EXC", "TIMEOUT", "SIGNAL", "SANITIZER", "EXIT") or out in ("HANG", "BAD-OP")
+    return out.split(":")[0] in ("ABORT", "EXC", "TIMEOUT", "SIGNAL", "SANITIZER", "EXIT") or out in ("HANG", "BAD-OP", "CRASH")
 
 
 def check_rowptr(rp, n_rows, nnz, what):
@@ -793,6 +826,10 @@ def parse_dump(c):
     # everything before the value array: format, dimensions, scalars, index arrays (= the layout)
     toks = c.t[p_start:c.p]
     r["layout"] = tuple(toks[:len(toks) - len(val) - 1])
+    v = c.tok()
+    if v not in ("V0", "V1"):
+        raise ValueError("V flag expected")
+    r["V"] = (v == "V1")
     if c.tok() != "D":
         raise ValueError("D expected")
     d = [c.fr() for _ in range(rows * cols)]
@@ -838,6 +875,8 @@ def judge_dump(s, g):
         return "block size %dx%d, expected %dx%d" % (g["bh"], g["bw"], s.bh, s.bw)
     if g["err"]:
         return "invalid layout: %s" % g["err"]
+    if not g["V"]:
+        return "the implementation-side validity flag is V0 for a layout the oracle finds valid"
     if g["raw"] != s.M:
         return "the raw arrays represent a different matrix"
     if g["D"] != s.M:
@@ -872,15 +911,64 @@ def oracle_vec(case, out):
     return None
 
 
+def oracle_vecx(case, out):
+    """vectors through the cross-type clone / convert chain: same content (values through double when the data type
+    changes), sharing table of Container::clone / assign; SparseVector::convert is documented as a deep copy"""
+    c = Tk(case)
+    c.nat(); c.tok()
+    kind = c.tok()
+    if kind == "sv":
+        size, idx, val = c.nat(), c.nats(), c.frs()
+        if not val:
+            idx = []
+    else:
+        val = c.frs()
+        idx, size = [], (len(val) // 2 if kind == "dvb" else len(val))
+    n = c.nat()
+    if is_abnormal(out):
+        return "vector clone / convert chain ended with " + out[:60]
+    segs = out.split("|")[1:]
+    if len(segs) != n + 1:
+        return "%d vector segments, expected %d" % (len(segs), n + 1)
+    for k, g in enumerate(segs):
+        t = Tk(g)
+        X = None
+        if t.peek() == "X":
+            t.tok()
+            X = tuple(t.nat() for _ in range(13))
+        if k > 0:
+            op = c.tok()
+            d, i = c.nat(), c.nat()
+            mode = c.nat() if op == "xclone" else (3 if kind == "sv" else 0)      # convert: assign = shares like shallow
+            if d:
+                val = [trunc53(x) for x in val]
+            hv, hi = bool(val), bool(idx)
+            sv = int(mode == 0 and not d and hv)
+            si = 1 if (mode in (0, 1, 2) and not i and hi) else 0
+            exp = (sv, si, sv, sv) * 3 + (sv,)
+            if X != exp:
+                return "vector %s step %d (%s, data type %s, index type %s): aliasing observations %s, expected %s" % (
+                    kind, k, op + ("" if op == "xconv" else ":" + CLONE_NAMES[mode]), "different" if d else "same",
+                    "different" if i else "same", X, exp)
+        if t.tok() != kind or t.nat() != size or t.nats() != idx or t.frs() != val:
+            return "vector %s after step %d is '%s', expected size %d idx %s val %s" % (kind, k, g.strip()[:120], size, idx, [str(v) for v in val])
+    return None
+
+
+def is_vecx(case):
+    t = case.split(None, 2)
+    return len(t) > 1 and t[1] == "vecx"
+
+
 def is_vec(case):
     t = case.split(None, 2)
-    return len(t) > 1 and t[1] == "vec"
+    return len(t) > 1 and t[1] in ("vec", "vecx")
 
 
 def oracle(case, out):
     if is_vec(case):
         try:
-            return oracle_vec(case, out)
+            return oracle_vecx(case, out) if is_vecx(case) else oracle_vec(case, out)
         except (IndexError, ValueError) as e:
             return "unparsable vector output (%s)" % e
     try:
@@ -973,6 +1061,8 @@ def nontrivial(case):
 
 
 def describe(case):
+    if is_vecx(case):
+        return ["init:vecx:" + case.split()[2]] + ["op:vec-" + w for w in case.split() if w in ("xclone", "xconv")]
     if is_vec(case):
         return ["init:vec", "op:vperm"]
     try:
@@ -1026,12 +1116,17 @@ def model_filter(case):
         it, states, ops, tag, k = simulate(case)
     except Exception:
         return True
-    return not (tag is not None and tag.startswith("defect:") and tag.split(":")[1] in ("D1", "D3", "D5", "D9"))
+    if tag is not None and tag.startswith("defect:") and tag.split(":")[1] in ("D1", "D3", "D5", "D9"):
+        # `Mat.stepCode` reproduces the crash for the plain operations; the aliased / extension variants do not
+        return ops[k][0] in ("perm", "tocscr", "graph") and tag.split(":")[1] != "D9"
+    return True
 
 
 def canon(out):
     if out.startswith("ABORT"):
         return "ABORT"
+    if out.startswith("SIGNAL:11") or out.startswith("EXC:"):
+        return "CRASH"          # the model of the code as it is says CRASH for the classes D1 / D3 / D5
     return out
 
 
